@@ -769,6 +769,27 @@ def op_hand_branch_then_merge(g):
     g.m_forward(a, 3)
 
 
+def op_bypass_on_other_pr(g):
+    """an admin waives the build on ONE pull request of an author; another
+    pull request of the same author, with a failed build and no waiver, is
+    evaluated by the same instance afterwards"""
+    dests = [d for d in g.dests() if not d.startswith('hotfix/')]
+    a = g.new_pr(dests[0])
+    g.w.do('comment', pr=a['id'], user=LEAD,
+           text=g.rng.choice(['@robot bypass_build_status',
+                              '/bypass_build_status']))
+    g.run('pr', a['id'])
+    b = g.new_pr(g.rng.choice(dests))
+    bad = g.rng.choice(['FAILED', 'FAILED', 'STOPPED', 'INPROGRESS'])
+    for _ in range(2):
+        heads = g.w.refs()[0]
+        for n in sorted(heads):
+            if n == b['src'] or (n.startswith('w/') and
+                                 n.endswith('/' + b['src'])):
+                g.w.do('set_status', ref='tip:' + n, state=bad)
+        g.run('pr', b['id'])
+
+
 def op_hotfix_two_queues(g):
     """a hotfix pull request is queued, the hotfix revision it was queued
     for is released (tag x.y.z.n pushed), a second hotfix pull request gets
@@ -794,6 +815,7 @@ def op_hotfix_two_queues(g):
 
 
 OPENERS = {
+    'bypass_on_other_pr': op_bypass_on_other_pr,
     'hotfix_two_queues': op_hotfix_two_queues,
     'hand_branch_then_merge': op_hand_branch_then_merge,
     'two_prs_same_base': Gen.op_two_prs_same_base,
